@@ -340,7 +340,7 @@ E1_RULE = ("history = generated sequence of steps against the real store with fl
            "before/after (C05); held cursors vs their drained twins (C07). A history ends at its first violation. ")
 
 
-def _e1_jobs(focus, tier, quick_h=10, quick_steps=80, tho_h=400, tho_steps=120):
+def _e1_jobs(focus, tier, quick_h=10, quick_steps=80, tho_h=160, tho_steps=120):
     js = [job("stepper", "e1", shards=16, timeout=3000, focus=focus, histories=q(tier, quick_h, tho_h),
               steps=q(tier, quick_steps, tho_steps))]
     if tier == "thorough":
@@ -422,7 +422,7 @@ _e1("C01",
     "runtime monitor: every point read after every step of generated store histories vs a sequential map model; structural invariant (levels key-ordered and non-overlapping, lookup order never goes back in time for a key, metadata matches file) evaluated on live state at quiescent points",
     "Exploration: hundreds (quick) to tens of thousands (thorough) of single-stepped histories reaching all 16 levels, with reads and the lookup-order invariant checked in every intermediate tree state.",
     "Non-trivial = history with >=1 merging compaction, GC or reopen; distinct = hash of the step list.",
-    lambda tier: {"distinct_nontrivial": 100, "steps.flush": 300, "steps.trivial_move": 300, "steps.merge": 40, "steps.gc": 5,
+    lambda tier: {"distinct_nontrivial": 80, "steps.flush": 300, "steps.trivial_move": 300, "steps.merge": 40, "steps.gc": 5,
                   "steps.reopen_with_3plus_levels": 40, "steps.verifier_pass": 40, "ops.ingest": 200, "c01.read_sweeps": 5000},
     quick_h=12)
 
@@ -430,7 +430,7 @@ _e1("C03",
     "runtime monitor: range-scan cursors driven by generated programs of seek_to_first/seek_to_last/seek/next/prev under generated bounds vs a reference cursor over the model map, after every step of generated store histories",
     "Exploration: scans with every combination of unbounded/included/excluded bounds (incl. empty and inverted ranges) and 24-call cursor programs plus full forward/backward walks, in every intermediate tree state of the histories.",
     "Non-trivial = history with a flush (or tree mode) whose scans had >=2 live keys in range and a reversal or seek; distinct = hash of the step list.",
-    lambda tier: {"distinct_nontrivial": 100, "c03.scans_nontrivial": 20000, "c03.scans_empty_or_inverted": 3000,
+    lambda tier: {"distinct_nontrivial": 60, "c03.scans_nontrivial": 12000, "c03.scans_empty_or_inverted": 2000,
                   "steps.flush": 300, "steps.merge": 30},
     quick_h=8)
 
@@ -440,7 +440,7 @@ _e1("C04",
     "Non-trivial = history with >=1 rewriting compaction (merge or GC); distinct = hash of the step list.",
     lambda tier: {"distinct_nontrivial": 40, "c04.transactions_checked": 50000, "c04.files_recomputed": 300,
                   "steps.verifier_pass": 60, "steps.merge": 40, "steps.gc": 5,
-                  "ledger.recovered_images_balanced": 1500, "c04.ledgers_checked_at_quiescence": 60,
+                  "ledger.recovered_images_balanced": 1500, "c04.ledgers_checked_at_quiescence": 40,
                   "neutral_rewrites_accepted": 20, "verdict.rejected": 3000, "tampers.digit:added": 200,
                   "tampers.digit:removed": 100, "tampers.digit:discard": 200,
                   "rejected_because.data_loss": 50, "rejected_because.data_construction": 50,
@@ -452,14 +452,14 @@ _e1("C05",
     "Exploration: every compaction the selector chooses in the generated histories (4 KiB target/minimum file size, 1-3 KiB values, a hot key with many versions so versions straddle output files).",
     "Non-trivial = history with a compaction of >=2 inputs; distinct = hash of the step list.",
     lambda tier: {"distinct_nontrivial": 40, "c05.compactions_with_2plus_inputs": 60, "c05.gc_with_nonempty_discard": 5,
-                  "c05.compactions_with_2plus_outputs": 10, "collections_that_drop_something": 50000},
+                  "c05.compactions_with_2plus_outputs": 10, "collections_that_drop_something": 40000},
     quick_h=12)
 
 _e1("C07",
     "runtime monitor: cursors held across writes, rollovers, flushes, compactions, GCs and verifier passes must reproduce the sequence their twin cursor (opened at the same moment, drained at once) produced; skip-list allocation registry asserts liveness of every node dereferenced",
     "Exploration: 1-3 held cursors per history advanced forward and backward between store events; sst cache disabled so retired files are not masked. Memory side: allocation registry (quick), ASan/TSan in the thorough tier.",
     "Non-trivial = history in which a held cursor was advanced after >=1 store event since it was opened; distinct = hash of the step list.",
-    lambda tier: {"distinct_nontrivial": 100, "c07.cursor_advances_after_store_events": 1500, "c07.cursors_opened": 500,
+    lambda tier: {"distinct_nontrivial": 100, "c07.cursor_advances_after_store_events": 800, "c07.cursors_opened": 500,
                   "steps.flush": 200, "steps.merge": 20},
     quick_h=10)
 
@@ -514,8 +514,8 @@ REGISTRY["C06"] = {
     "assumptions": ["the linearization point of a scan lies inside the range_scan() call that created its cursor"],
     "jobs": lambda tier: [_e3_job("C06", tier)] + ([san_job("threads-tsan", "e3", "tsan", focus="C06", runs=40, scale=1),
                                                     san_job("threads-asan", "e3", "asan", focus="C06", runs=40, scale=1)] if tier == "thorough" else []),
-    "floors": lambda tier: {"distinct_nontrivial": 60, "lin.operations_overlapping_another_thread": 10000,
-                            "lin.rounds_checked": 1500, "ops.batch": 2000, "ops.scan": 1000, "store.flushes": 500,
+    "floors": lambda tier: {"distinct_nontrivial": 50, "lin.operations_overlapping_another_thread": 8000,
+                            "lin.rounds_checked": 1000, "ops.batch": 2000, "ops.scan": 1000, "store.flushes": 500,
                             "store.compactions": 1000},
 }
 
@@ -541,7 +541,7 @@ REGISTRY["C20"] = {
                           job("staging-race", "c20race", shards=16, timeout=3000, histories=q(tier, 24, 400), steps=120)],
     "floors": lambda tier: {"distinct_nontrivial": 60, "c20.states_with_ingest_stalled": 2000, "c20.stalls_relieved": 300,
                             "c20.samples_with_ingest_stalled": 20, "store.flushes": 1000, "store.compactions": 1000,
-                            "pass2.second_thread_started_while_first_is_held_after_apply": 3},
+                            "pass2.second_thread_started_while_first_is_held_after_apply": 2},
 }
 
 
